@@ -44,7 +44,7 @@ class MetricActionContext(ActionContext):
                 try:
                     getattr(processor, self._convert_type(metric.type))(metric.name, labels, metric.namespace or "deep",
                                                                         metric.help, metric.unit, value)
-                except Exception:
+                except BaseException:
                     deep.logging.exception("Failed to process metric %s with processor %s", metric.name, processor)
 
     def __has_metric_processor(self):
